@@ -144,7 +144,7 @@ class Tracer(SymEval):
                 return ("rev", self.iter_desc(it["recv"], env))
             if m in ("copied", "cloned") and "Option" not in (it.get("def") or ""):
                 return self.iter_desc(it["recv"], env)      # same elements by value
-            if m in ("map", "filter", "filter_map", "zip", "skip", "step_by", "take", "flat_map"):
+            if m in ("map", "filter", "filter_map", "zip", "skip", "step_by", "take", "flat_map", "take_while", "map_while", "skip_while"):
                 inner = self.iter_desc(it["recv"], env)
                 extra = [self.eval(a, env) for a in it["args"]]     # (closure literals go through e_closure, which remembers their environment)
                 return (m, inner) + tuple(extra)
@@ -576,7 +576,7 @@ class Tracer(SymEval):
         return app("matches", v, repr(pat_key(n["pat"])))
 
     ITER_METHODS = ("iter", "iter_mut", "into_iter", "map", "filter", "filter_map", "enumerate", "rev", "zip",
-                    "skip", "step_by", "take", "flat_map", "copied", "cloned")
+                    "skip", "step_by", "take", "flat_map", "copied", "cloned", "take_while", "map_while", "skip_while")
 
     def e_mcall(self, n, env):
         if n["m"] == "next" and not n["args"] and (n.get("def") or "").endswith("Iterator::next"):
